@@ -131,9 +131,11 @@ func iriEq(a, b string) bool {
 	ka, oka := refIRIKey(a)
 	kb, okb := refIRIKey(b)
 	if oka && okb {
-		return ka == kb
+		// letter case is ignored in host and path for letters of any script (strings.EqualFold), not in the query
+		pa, pb := strings.SplitN(ka, "|", 3), strings.SplitN(kb, "|", 3)
+		return strings.EqualFold(pa[0], pb[0]) && strings.EqualFold(pa[1], pb[1]) && pa[2] == pb[2]
 	}
-	return asciiLower(a) == asciiLower(b)
+	return strings.EqualFold(a, b)
 }
 
 func refIRIKey(s string) (string, bool) {
@@ -149,7 +151,7 @@ func refIRIKey(s string) (string, bool) {
 		pairs = strings.Split(u.RawQuery, "&")
 		sort.Strings(pairs)
 	}
-	return asciiLower(u.Host) + "|" + asciiLower(refClean(u.Path)) + "|" + strings.Join(pairs, "&"), true
+	return u.Host + "|" + refClean(u.Path) + "|" + strings.Join(pairs, "&"), true
 }
 
 // scanOrder: the addressing entries in the order the property prescribes.
@@ -361,6 +363,20 @@ func c10Case(c *Ctx, v aValue) {
 	}
 }
 
+// c10OracleCase: ids outside the model's URL grammar (letters beyond ASCII): judged by the oracle only
+func c10OracleCase(c *Ctx, v aValue) {
+	_, viol := runRecipients(v)
+	b := mustJSON(v)
+	var in map[string]interface{}
+	json.Unmarshal(b, &in)
+	in["op"] = "recipients"
+	c.Count(in, true)
+	c.Tag("non-ascii-ids")
+	if viol != "" {
+		c.Fail("C10/recipients", viol, in)
+	}
+}
+
 func c10RandCol(r *RNG, maxLen int) []*aEntry {
 	if r.Chance(15) {
 		return nil
@@ -417,6 +433,19 @@ func init() {
 				typ = []string{"Activity", "IntransitiveActivity", "Question"}[c.R.Intn(3)]
 			}
 			c10Case(c, c10RandValue(c.R, typ, c.N(4, 6)))
+			// one addressee spelled with letters of another script, in two letter cases and with a trailing slash
+			if typ != "ItemCollection" {
+				greek := []*aEntry{{"iri", "https://example.gr/users/Νίκος"}, {"iri", "http://EXAMPLE.GR/USERS/ΝΊΚΟΣ/"}, {"obj", "https://example.gr/users/νίκος"},
+					{"iri", "https://example.com/straße"}, {"iri", "https://example.com/STRAßE/"}, {"iri", "https://example.com/b"}}
+				pick := func() []*aEntry {
+					var l []*aEntry
+					for k := c.R.Intn(4); k > 0; k-- {
+						l = append(l, greek[c.R.Intn(len(greek))])
+					}
+					return l
+				}
+				c10OracleCase(c, aValue{Type: typ, To: pick(), CC: pick(), Bto: pick(), BCC: pick(), Audience: pick()})
+			}
 		}
 		for i := 0; i < c.N(1500, 30000); i++ {
 			v := aValue{Type: "ItemCollection"}
